@@ -7,6 +7,8 @@ cd "$(dirname "$0")" || exit 2
 export GOFLAGS=-mod=mod GOPROXY=off GOSUMDB=off GOTOOLCHAIN=local
 what=${1:-all}
 out=$(mktemp -d /tmp/govc-selftest-out-XXXXXX)
+base=$(mktemp -d /tmp/govc-selftest-base-XXXXXX)   # one snapshot of /repo for the whole run
+rsync -a --exclude .git /repo/ $base/
 miss=0; alarm=0; n=0
 props_for_file() {
   case "$1" in
@@ -22,7 +24,7 @@ PY
 while read kind name prop file; do
   [ "$what" != all ] && [ "$what" != "$kind" ] && continue
   scratch=$(mktemp -d /tmp/govc-selftest-repo-XXXXXX)
-  rsync -a --exclude .git /repo/ $scratch/
+  rsync -a $base/ $scratch/
   if ! (cd $scratch && patch -p1 -s < /verif/mutants/$kind/$name.patch); then echo "$kind $name: patch does not apply (corpus is stale: rerun mutants/make_corpus.py)"; rm -rf $scratch; continue; fi
   n=$((n+1))
   if [ "$kind" = must-fail ]; then
@@ -36,6 +38,6 @@ while read kind name prop file; do
   fi
   rm -rf $scratch
 done < $out/list.txt
-rm -rf $out
+rm -rf $out $base
 echo "SELFTEST cases=$n missed=$miss false_alarms=$alarm"
 [ $miss -eq 0 ] && [ $alarm -eq 0 ]
